@@ -237,6 +237,11 @@ func finalizeWriting() {
 			verifEvent("w:fdeq", line)
 			adapter.Write(line, 0)
 		case <-time.After(10 * time.Millisecond):
+			// The timer can win against a non-empty buffer when this goroutine was
+			// descheduled between creating the timer and polling: keep draining.
+			if len(logBuffer) > 0 {
+				continue
+			}
 			verifEvent("w:ftimeout")
 			fmt.Printf("%s%s %s EOF%s\n", InfoLevel.color(), time.Now().Format(timeFormat), leftArrow, endColor())
 			return
